@@ -1,5 +1,238 @@
 package main
 
-func runSelfTestFor(prop, repo string, seed int, vdir string) map[string]any { return nil }
+import (
+	"encoding/json"
+	"fmt"
+	"math/rand"
+	"os"
+	"os/exec"
+	"path/filepath"
+	"sort"
+	"strings"
+	"sync"
+	"time"
+)
 
-func cmdSelfTest(args []string) int { return 0 }
+// A variant is a small edit of the CURRENT source of the repository that breaks one rule
+// instance while still compiling.  It is applied as an in-memory overlay (go/packages
+// Overlay) in a separate kadcheck subprocess; nothing is written to the repository.
+// Variants test the checker (sensitivity), not the repository: a variant whose anchor text
+// no longer occurs exactly once is skipped and counted; a variant that applies but is not
+// detected is reported in the evidence as `missed` and never becomes a VIOLATION.
+type variant struct {
+	ID     string `json:"id"`
+	Prop   string `json:"prop"`
+	File   string `json:"file"`
+	Old    string `json:"old"`
+	New    string `json:"new"`
+	Old2   string `json:"old2,omitempty"` // optional second edit in the same file
+	New2   string `json:"new2,omitempty"`
+	Expect string `json:"expect"` // rule id expected to fire, e.g. "C05.R2"
+	What   string `json:"what"`
+}
+
+type variantResult struct {
+	ID       string `json:"id"`
+	What     string `json:"what"`
+	Expect   string `json:"expect"`
+	Status   string `json:"status"` // detected | missed | skipped | error
+	Detail   string `json:"detail,omitempty"`
+	FiredAt  string `json:"fired_at,omitempty"`
+	ExitCode int    `json:"exit"`
+}
+
+func loadVariants(vdir string) ([]variant, error) {
+	var all []variant
+	files, _ := filepath.Glob(filepath.Join(vdir, "selftest", "*.json"))
+	sort.Strings(files)
+	for _, f := range files {
+		data, err := os.ReadFile(f)
+		if err != nil {
+			return nil, err
+		}
+		var vs []variant
+		if err := json.Unmarshal(data, &vs); err != nil {
+			return nil, fmt.Errorf("%s: %w", f, err)
+		}
+		all = append(all, vs...)
+	}
+	return all, nil
+}
+
+func runVariant(v variant, repo, vdir string) variantResult {
+	res := variantResult{ID: v.ID, What: v.What, Expect: v.Expect}
+	path := filepath.Join(repo, v.File)
+	src, err := os.ReadFile(path)
+	if err != nil {
+		res.Status, res.Detail = "skipped", "file not found"
+		return res
+	}
+	if n := strings.Count(string(src), v.Old); n != 1 {
+		res.Status, res.Detail = "skipped", fmt.Sprintf("anchor text occurs %d times in the current tree", n)
+		return res
+	}
+	mod := strings.Replace(string(src), v.Old, v.New, 1)
+	if v.Old2 != "" {
+		if n := strings.Count(mod, v.Old2); n != 1 {
+			res.Status, res.Detail = "skipped", fmt.Sprintf("second anchor text occurs %d times in the current tree", n)
+			return res
+		}
+		mod = strings.Replace(mod, v.Old2, v.New2, 1)
+	}
+	tmp, err := os.CreateTemp("", "kadcheck-variant-*.go")
+	if err != nil {
+		res.Status, res.Detail = "error", err.Error()
+		return res
+	}
+	defer os.Remove(tmp.Name())
+	tmp.WriteString(mod)
+	tmp.Close()
+	exe, _ := os.Executable()
+	cmd := exec.Command(exe, "check", "-prop", v.Prop, "-tier", "quick", "-repo", repo, "-noevidence", "-overlay", path+"="+tmp.Name())
+	cmd.Env = append(os.Environ(), "VERIF_DIR="+vdir, "VERIF_TIER=quick")
+	out, err := cmd.CombinedOutput()
+	code := 0
+	if ee, ok := err.(*exec.ExitError); ok {
+		code = ee.ExitCode()
+	} else if err != nil {
+		res.Status, res.Detail = "error", err.Error()
+		return res
+	}
+	res.ExitCode = code
+	text := string(out)
+	switch {
+	case code == 1 && strings.Contains(text, "violated "+v.Expect+" "):
+		res.Status = "detected"
+		for _, line := range strings.Split(text, "\n") {
+			if strings.Contains(line, "violated "+v.Expect+" ") {
+				res.FiredAt = strings.TrimSpace(line)
+				if len(res.FiredAt) > 220 {
+					res.FiredAt = res.FiredAt[:220]
+				}
+				break
+			}
+		}
+	case code == 1:
+		res.Status = "detected"
+		res.Detail = "another rule fired, not " + v.Expect
+		for _, line := range strings.Split(text, "\n") {
+			if strings.Contains(line, "violated ") {
+				res.FiredAt = strings.TrimSpace(line)
+				if len(res.FiredAt) > 220 {
+					res.FiredAt = res.FiredAt[:220]
+				}
+				break
+			}
+		}
+	case code == 2 && strings.Contains(text, "type errors"):
+		res.Status, res.Detail = "error", "variant does not compile"
+	case code == 2:
+		res.Status, res.Detail = "missed", "check became undecided instead of reporting a violation: "+lastLine(text)
+	default:
+		res.Status = "missed"
+	}
+	return res
+}
+
+func lastLine(s string) string {
+	lines := strings.Split(strings.TrimSpace(s), "\n")
+	l := lines[len(lines)-1]
+	if len(l) > 200 {
+		l = l[:200]
+	}
+	return l
+}
+
+func runSelfTestFor(prop, repo string, seed int, vdir string) map[string]any {
+	start := time.Now()
+	all, err := loadVariants(vdir)
+	if err != nil {
+		return map[string]any{"error": err.Error()}
+	}
+	var vs []variant
+	for _, v := range all {
+		if v.Prop == prop {
+			vs = append(vs, v)
+		}
+	}
+	rand.New(rand.NewSource(int64(seed))).Shuffle(len(vs), func(i, j int) { vs[i], vs[j] = vs[j], vs[i] })
+	results := make([]variantResult, len(vs))
+	sem := make(chan struct{}, 6)
+	var wg sync.WaitGroup
+	for i, v := range vs {
+		wg.Add(1)
+		go func(i int, v variant) {
+			defer wg.Done()
+			sem <- struct{}{}
+			defer func() { <-sem }()
+			results[i] = runVariant(v, repo, vdir)
+		}(i, v)
+	}
+	wg.Wait()
+	sort.Slice(results, func(i, j int) bool { return results[i].ID < results[j].ID })
+	counts := map[string]int{}
+	var missed []variantResult
+	for _, r := range results {
+		counts[r.Status]++
+		if r.Status == "missed" || r.Status == "error" {
+			missed = append(missed, r)
+		}
+	}
+	fmt.Printf("  self-test: %d variants, detected=%d missed=%d skipped=%d error=%d (%.1fs)\n", len(vs), counts["detected"], counts["missed"], counts["skipped"], counts["error"], time.Since(start).Seconds())
+	for _, r := range missed {
+		fmt.Printf("    self-test %s: %s (%s) %s\n", r.Status, r.ID, r.What, r.Detail)
+	}
+	return map[string]any{
+		"variants": len(vs), "detected": counts["detected"], "missed": counts["missed"], "skipped": counts["skipped"], "errors": counts["error"],
+		"results": results, "wall_s": time.Since(start).Seconds(),
+		"note": "sensitivity self-test of the checker: each variant is a compile-clean edit of the current source applied as an in-memory overlay in a subprocess; a missed variant is a checker defect, never a property violation",
+	}
+}
+
+// cmdSelfTest runs all variants of all (or one) property and exits 1 when one is missed.
+func cmdSelfTest(args []string) int {
+	vdir := verifDir()
+	repo := "/repo"
+	only := ""
+	for i := 0; i < len(args); i++ {
+		switch args[i] {
+		case "-repo":
+			repo = args[i+1]
+			i++
+		case "-prop":
+			only = args[i+1]
+			i++
+		}
+	}
+	all, err := loadVariants(vdir)
+	if err != nil {
+		fmt.Println(err)
+		return 2
+	}
+	props := map[string]bool{}
+	for _, v := range all {
+		if only == "" || v.Prop == only {
+			props[v.Prop] = true
+		}
+	}
+	var ids []string
+	for p := range props {
+		ids = append(ids, p)
+	}
+	sort.Strings(ids)
+	bad := 0
+	for _, p := range ids {
+		fmt.Println(p)
+		r := runSelfTestFor(p, repo, 0, vdir)
+		if m, _ := r["missed"].(int); m > 0 {
+			bad += m
+		}
+		if m, _ := r["errors"].(int); m > 0 {
+			bad += m
+		}
+	}
+	if bad > 0 {
+		return 1
+	}
+	return 0
+}
